@@ -390,7 +390,7 @@ Proof.
     set (ev := Capacity.mat_vec acc x) in *. set (lam := Capacity.vec_max ev) in *.
     assert (Hr' : Forall (inR 0 4) (lam :: record)) by (constructor; assumption).
     destruct last as [l0|].
-    + assert (Hq' : Forall (inR 0 4) (lam :: queue)) by (constructor; assumption).
+    + assert (Hq' : Forall (inR 0 4) (queue ++ [lam])) by (apply Forall_app; split; [assumption|constructor; [assumption|constructor]]).
       match type of H with (if ?c then _ else _) = _ => destruct c end.
       * injection H as <- <-. split.
         -- apply Forall_app. split.
